@@ -108,7 +108,10 @@ Print Assumptions C18_err_equals_resp_err.
 Theorem C18_must_panics_with_resp_err : forall fl p,
   p_entry p = EMust ->
   match run fl p with
-  | Panicked x ls h => exists ro e0, do_call fl (p_cfg p) (p_attempts p) = DoRet ro e0 ls /\ resp_err ro = Some x
+  | Panicked x ls h =>
+      exists ro e0, do_call fl (p_cfg p) (p_attempts p) = DoRet ro e0 ls /\
+        (resp_err (after_hook (p_cfg p) ro) = Some x \/
+         exists hb, resp_err ro <> None /\ c_onerror (p_cfg p) = Some hb /\ h_panic hb = Some x)
   | Returned ro e ls h => e = None /\ resp_err ro = None
   | OutOfFuel => do_call fl (p_cfg p) (p_attempts p) = DoOutOfFuel
   end.
@@ -179,13 +182,14 @@ Theorem C18_on_error_exactly_once : forall fl p,
   hooks_of (run fl p) =
   match p_entry p with
   | EDo => 0%nat
-  | _ => if ends_in_error fl p && c_onerror (p_cfg p) then 1%nat else 0%nat
+  | _ => if ends_in_error fl p && is_some (c_onerror (p_cfg p)) then 1%nat else 0%nat
   end.
 Proof. exact on_error_exactly_once. Qed.
 Print Assumptions C18_on_error_exactly_once.
 
 Theorem C18_ends_in_error_iff : forall fl p,
   p_entry p <> EDo ->
+  (forall hb, c_onerror (p_cfg p) = Some hb -> h_set hb = None /\ h_panic hb = None) ->
   (ends_in_error fl p = true <->
    match run fl p with
    | Returned _ e _ _ => e <> None
@@ -287,15 +291,15 @@ Proof. exact do_pinned_nil_deref. Qed.
 (* non-vacuity: concrete non-trivial programs *)
 Example C18_nonvacuous :
   (* 200 + JSON + success target: bound; error hook silent *)
-  run Fixed (mkProg ESend (mkCfg (mkTargets true true true) true true None None false)
-    [mkAttempt [None; None] None [WPass] None (TResp 200 None (mkBody None None None None None)) [Mw None None] [Mw None None] false])
+  run Fixed (mkProg ESend (mkCfg (mkTargets true true true) true (Some (mkHook None None)) None None false)
+    [mkAttempt [None; None] None [WPass] None (TResp 200 None (mkBody None None None None None)) [Mw None None] [Mw None None] [] false false])
   = Returned (Some (mkResp true 200 None None true true ENone)) None
       [[EvUd 0; EvUd 1; EvWIn 0; EvSend; EvCli 0; EvWOut 0; EvReq 0]] 0 /\
   (* 500 + ill-formed body + request-level error target: unmarshal error surfaces, hook runs once *)
-  run Fixed (mkProg ESend (mkCfg (mkTargets true true true) true true None None false)
-    [mkAttempt [] None [] None (TResp 500 None (mkBody None None None (Some (-1)) None)) [] [] false])
+  run Fixed (mkProg ESend (mkCfg (mkTargets true true true) true (Some (mkHook None None)) None None false)
+    [mkAttempt [] None [] None (TResp 500 None (mkBody None None None (Some (-1)) None)) [] [] [] false false])
   = Returned (Some (mkResp true 500 None (Some (-1)) true false ENone)) (Some (-1)) [[EvSend]] 1 /\
   (* a wrapper returning (nil, err) under retry: the repaired loop retries and reports the error *)
   run Fixed (mkProg ESend retry_cfg [nil_wrapper_attempt; nil_wrapper_attempt]) =
-  Returned (Some (set_err (Some 1) fresh_resp)) (Some 1) [[EvWIn 0; EvWOut 0; EvHook]; [EvWIn 0; EvWOut 0]] 0.
+  Returned (Some (set_err (Some 1) fresh_resp)) (Some 1) [[EvWIn 0; EvWOut 0; EvHook 0]; [EvWIn 0; EvWOut 0]] 0.
 Proof. vm_compute. repeat split; reflexivity. Qed.
